@@ -2,6 +2,7 @@ package c14
 
 import (
 	"fmt"
+	"path"
 	"strings"
 
 	"verifharness/kit"
@@ -147,11 +148,57 @@ func genCase(r *kit.Rand, idx int, tier string) []string {
 			delete(sh.tmpl, "T")
 		}
 	}
+	// every fifth case starts with a populated catalogue (3-5 tasks, 2-3 templates), so that the paged / filtered
+	// listings that follow have something to page through
+	if idx%5 == 2 {
+		for _, id := range tmplIDs[:r.Range(2, 3)] {
+			if _, ok := sh.tmpl[id]; !ok {
+				ops = append(ops, "tcreate "+id+" s=t0", "list")
+				sh.tmpl[id] = "t0"
+			}
+		}
+		skip := r.Intn(len(taskIDs) + 2)
+		for i, id := range taskIDs {
+			if i == skip || sh.task[id] != nil || (i > 2 && r.Chance(1, 4)) {
+				continue
+			}
+			st := kit.Pick(r, []string{" st=e", "", ""})
+			ops = append(ops, "create "+id+" s=s0 d=db.rp"+st, "list")
+			sh.task[id] = &shTask{enabled: st == " st=e"}
+		}
+		size += len(ops) / 2
+	}
 	explicitDBRPs := []string{"db.rp", "db.rp,db2.rp2", "x.y"}
 	if withBatch {
 		explicitDBRPs = []string{"db.rp", "db.rp,odb.orp", "odb.orp", "x.y"}
 	}
-	for len(ops) < 2*size {
+	// paged / filtered listings (page tasks|tmpls pat= off= lim= f=): a group of page requests after the listing
+	// of one request in four, and one group at the very end. They read only: not counted as requests of the history.
+	npage := 0
+	pages := func() {
+		var ex []string
+		kind := "tasks"
+		if r.Chance(3, 10) {
+			kind = "tmpls"
+			for _, id := range []string{"T", "T2", "U", "V"} {
+				if _, ok := sh.tmpl[id]; ok {
+					ex = append(ex, id)
+				}
+			}
+		} else {
+			ex = existing()
+		}
+		if len(ex) < 2 && !r.Chance(1, 5) {
+			return // a catalogue with fewer than two entries has little to page through
+		}
+		g := genPages(r, kind, ex)
+		npage += len(g)
+		ops = append(ops, g...)
+	}
+	for len(ops)-npage < 2*size {
+		if len(ops) > 0 && ops[len(ops)-1] == "list" && r.Chance(1, 4) {
+			pages()
+		}
 		k := r.Intn(100)
 		switch {
 		case k < 8 || (len(sh.tmpl) == 0 && k < 20): // template create
@@ -323,7 +370,97 @@ func genCase(r *kit.Rand, idx int, tier string) []string {
 	}
 	// always end with a clean restart: every enabled task must come back
 	ops = append(ops, "restart", "list")
+	pages()
 	return ops
+}
+
+var taskPatterns = []string{"-", "*", "a*", "a", "ab", "?", "*b", "b*", "c", "d", "??", "z*", "*?", "c*", "?b", "a?"}
+var tmplPatterns = []string{"-", "*", "T*", "T", "T2", "T?", "U", "*2", "V", "?", "U*", "?2"}
+
+// genPages draws one group of page requests on the task or template listing. `ex` = the IDs the shadow believes to
+// exist, sorted. Directed at the structural cases of filter | drop(offset) | take(limit): patterns that match none /
+// some / all of the IDs, in particular patterns whose matches sort AFTER IDs they do not match (so that "the offset
+// counts matches" differs from "the offset counts index entries") and prefix-related IDs (a / ab, T / T2); offsets 0,
+// inside, at and past the end of the matches; limits that cut, fit exactly, exceed, or are left out (default 100);
+// either single requests or the walk of a paging client (offset = 0, k, 2k, … until past the end).
+func genPages(r *kit.Rand, kind string, ex []string) []string {
+	pool := taskPatterns
+	if kind == "tmpls" {
+		pool = tmplPatterns
+	}
+	pat := kit.Pick(r, pool)
+	if r.Chance(1, 4) {
+		pat = kit.Pick(r, []string{"-", "-", "*", "?*"}) // no filter: plain paging
+	} else if len(ex) >= 2 && r.Chance(2, 3) {
+		// a pattern built from an ID that is not the first one: the IDs before it (mostly) do not match
+		target := ex[r.Range(1, len(ex)-1)]
+		switch r.Intn(5) {
+		case 0, 1:
+			pat = target
+		case 2:
+			pat = target[:1] + "*"
+		case 3:
+			pat = "*" + target[len(target)-1:]
+		default:
+			pat = strings.Repeat("?", len(target))
+		}
+	}
+	// number of IDs the shadow expects to match (steers offsets and limits only)
+	nm := 0
+	for _, id := range ex {
+		if ok, _ := path.Match(pat, id); ok || pat == "-" {
+			nm++
+		}
+	}
+	fields := "std"
+	switch r.Intn(8) {
+	case 0:
+		fields = "all"
+	case 1:
+		fields = "id"
+	}
+	tok := func(off, lim string) string {
+		p := "-"
+		if pat != "-" {
+			p = kit.Esc(pat)
+		}
+		return fmt.Sprintf("page %s pat=%s off=%s lim=%s f=%s", kind, p, off, lim, fields)
+	}
+	var out []string
+	if r.Chance(1, 3) {
+		// paging client: consecutive pages of k entries until one past the last possible entry (at most 5 requests)
+		k := r.Range(1, 2)
+		for off := 0; off <= nm+k && len(out) < 5; off += k {
+			out = append(out, tok(fmt.Sprint(off), fmt.Sprint(k)))
+		}
+		return out
+	}
+	n := r.Range(1, 3)
+	for i := 0; i < n; i++ {
+		// offset: none / 0 / inside / at the end / past the end of the expected matches
+		o := r.Intn(nm + 3) - 1
+		if nm >= 2 && r.Chance(1, 2) {
+			o = r.Range(1, nm-1) // inside
+		}
+		off := fmt.Sprint(o)
+		if o < 0 {
+			off = "-"
+		}
+		if o < 0 {
+			o = 0
+		}
+		// limit: none (100) / 1 / what is left / one less / more
+		lim := kit.Pick(r, []string{"-", "1", "2", "100", fmt.Sprint(maxInt(1, nm-o)), fmt.Sprint(maxInt(1, nm-o-1))})
+		out = append(out, tok(off, lim))
+	}
+	return out
+}
+
+func maxInt(a, b int) int {
+	if a > b {
+		return a
+	}
+	return b
 }
 
 func contains(xs []string, x string) bool {
